@@ -1287,9 +1287,9 @@ def spaces(tier, seed):
         Space("tables", [dict(k="table", table=t) for t in TABLE_CHECKS], True, "15 agreement checks between the constant tables"),
     ]
     if tier == "quick":
-        sp.append(Space("ticks-core", _tick_cases(PPQ_CORE, MPQ_CORE, 10000, True), True,
+        sp.append(Space("ticks-core", _tick_cases(PPQ_CORE, MPQ_CORE, 10000, False), True,
                         "t=k/1000 s, k=0..9999 (blocks of 250) x ppq {1,96,480,960} x mpq {250000,500000,600000}; parameter form "
-                        "{int,float,numpy int} all; scalars float/np.float64/int/np.int64, arrays float64 1-D/2-D/strided/"
+                        "(int/float/numpy int) cycled over consecutive blocks; scalars float/np.float64/int/np.int64, arrays float64 1-D/2-D/strided/"
                         "empty, int64, int32; both directions"))
         more = _tick_more(4000)
         b = seed % TICK_BLOCKS
